@@ -53,3 +53,83 @@ class EventV1(Unit):
         if "quiescent=1" not in summary:
             return "model not quiescent at the end of a complete implementation run: " + summary
         return None
+
+
+# The wait operations of the auto-reset event sit deep inside the next-sender's operation state, so
+# the driver cannot name their addresses; dsched prints them as #k.  The first occurrence of an
+# operation's address is always the CAS that pushes it (old->#k), issued by the thread starting
+# that wait: project() renames #k accordingly.
+
+class AutoReset(Unit):
+    """program = (ready0, prog of thread 0, ...); thread program over S (set) D (set_done) N<d> (next d).
+    A thread containing N is a consumer (N only)."""
+    name = "auto_reset/AutoReset"; driver = "k1_auto_reset"; cfg = "shim17"; handler = "autoreset"
+    maxruns = {"quick": 3000, "thorough": 60000}
+    nrandom = {"quick": 200, "thorough": 3000}
+    multi = False
+    def programs(self, tier):
+        q = [
+            ("0", "N0", "S"),
+            ("0", "N0N1", "S", "S"),
+            ("1", "N0N1", "S"),
+            ("0", "N0", "D"),
+            ("0", "N0N1", "S", "D"),
+            ("0", "N0N1", "SD"),
+            ("0", "N0N1N2", "SS", "S"),
+            ("1", "N0", "D", "S"),
+        ]
+        if tier != "quick":
+            q += [("0", "N0N1N2", "S", "S", "D"), ("1", "N0N1N2", "SS", "SD"), ("0", "N0N1", "SSD", "S")]
+        return q
+    def model_args(self, prog):
+        return " ".join(p for p in prog if p != "allow-spurious")
+    def project(self, prog, events):
+        progs = [p for p in prog[1:] if p != "allow-spurious"]
+        waits = [[int(x) for x in re.findall(r"N(\d)", p)] for p in progs]
+        started = [0] * len(progs)          # number of waits begun per thread (by its loads)
+        cur = [None] * len(progs)
+        names = {}
+        out = []
+        for e in events:
+            m = re.match(r"t(\d+) (.*)$", e)
+            t, rest = int(m.group(1)), m.group(2)
+            if rest.startswith("aare.evt "):
+                if t < len(progs) and rest.startswith("aare.evt L."):
+                    cur[t] = waits[t][started[t]]; started[t] += 1
+                mm = re.search(r"->(#\d+) (ok|fail)$", rest)
+                if mm and mm.group(1) not in names and t < len(progs) and cur[t] is not None:
+                    names[mm.group(1)] = "w%d" % cur[t]
+                rest = re.sub(r"#\d+", lambda k: names.get(k.group(0), k.group(0)), rest)
+                out.append((t, rest))
+            elif rest.startswith("aare.mutex "):
+                out.append((t, rest))
+            elif re.match(r"!w\d+ handoff$", rest):
+                out.append((t, rest[1:]))
+            else:
+                mm = re.match(r"!(next \d+ (value|done)) here=\d$", rest)
+                if mm:
+                    out.append((t, mm.group(1)))
+        return out
+    def post_check(self, prog, summary, proj):
+        # a consumer the driver abandoned must be suspended on an UNSET event in the model
+        m = re.search(r"pcs=\[([^\]]*)\] state=(\w+) stk=\[([^\]]*)\]", summary)
+        pcs, state, stk = m.group(1).split(","), m.group(2), [x for x in m.group(3).split(",") if x]
+        for p in pcs:
+            if p == "idle":
+                continue
+            mm = re.match(r"susp(\d+)$", p)
+            if not mm:
+                return "model thread neither finished nor suspended at the end of a complete run: " + summary
+            if state != "UNSET" or mm.group(1) not in stk:
+                return "model has a next suspended although the event is not unset / it is not on the stack: " + summary
+        return None
+
+class AutoResetMulti(AutoReset):
+    """two or more concurrent consumers: the loser of a try_reset race completes done (see
+    AutoReset spurious_done_refuted); the direct monitor reports it"""
+    name = "auto_reset/AutoReset-multi"
+    def programs(self, tier):
+        q = [("0", "N0", "N1", "S"), ("0", "N0", "N1", "S", "S"), ("0", "N0", "N1", "S", "D")]
+        if tier != "quick":
+            q += [("0", "N0N2", "N1", "SS", "S"), ("1", "N0", "N1", "N2", "S")]
+        return q
